@@ -1,3 +1,3 @@
 import Sonic.Driver
 
-def main : IO Unit := Sonic.Driver.main
+def main (args : List String) : IO Unit := Sonic.Driver.main args
